@@ -31,6 +31,9 @@ fn setup(ctx: &mut Ctx) {
     ctx.floor("by-name:duplicate-name-first-wins", 100);
     ctx.floor("by-name:prefix-or-suffix-query", 500);
     ctx.floor("by-name:non-utf8-section-name-present", 50);
+    ctx.floor("by-name:query-with-embedded-nul", 500);
+    ctx.floor("by-name:unterminated-tail-query", 50);
+    ctx.floor("shstrtab-without-final-nul", 100);
     ctx.floor("typed:refused", 5000);
     ctx.floor("typed:accepted-and-equal", 2000);
     ctx.floor("typed:segment-notes", 300);
@@ -184,6 +187,38 @@ fn check_by_name(ctx: &mut Ctx, f: &ElfBytes<'_, AnyEndian>, data: &[u8], r: &Re
                     qs.push((format!("{s}x"), true));
                 }
                 Err(_) => ctx.count("by-name:non-utf8-section-name-present"),
+            }
+        }
+    }
+    // queries cut out of the raw table: entries joined across their NUL, and the unterminated tail
+    if let ShStrtab::Range(s0, l0) = r.shstrtab() {
+        let tab = &data[s0..s0 + l0];
+        for i in 0..r.shnum().min(40) {
+            if let Some(sh) = r.shdr(i) {
+                let o = sh.get("sh_name") as usize;
+                if o < tab.len() {
+                    let rest = &tab[o..];
+                    match rest.iter().position(|c| *c == 0) {
+                        Some(e) => {
+                            // this entry, its NUL and the next entry
+                            let after = &rest[e + 1..];
+                            let e2 = after.iter().position(|c| *c == 0).unwrap_or(after.len());
+                            if let Ok(q) = std::str::from_utf8(&rest[..e + 1 + e2]) {
+                                qs.push((q.to_string(), true));
+                                ctx.count("by-name:query-with-embedded-nul");
+                            }
+                            if let Ok(q) = std::str::from_utf8(&rest[..e + 1]) {
+                                qs.push((q.to_string(), true));
+                            }
+                        }
+                        None => {
+                            if let Ok(q) = std::str::from_utf8(rest) {
+                                qs.push((q.to_string(), true));
+                                ctx.count("by-name:unterminated-tail-query");
+                            }
+                        }
+                    }
+                }
             }
         }
     }
@@ -347,7 +382,15 @@ fn run(ctx: &mut Ctx, _si: usize, _case: u64) {
     o.max_syms = 10;
     o.ragged = false;
     let (spec, m) = gen_object(&mut ctx.rng, enc, &o);
-    let b = build(&spec, &mut ctx.rng);
+    let mut b = build(&spec, &mut ctx.rng);
+    if ctx.rng.chance(1, 4) && b.shstrndx != 0 {
+        // the section-name string table loses its final NUL: its last name is then not a string any more
+        let sz = b.secs[b.shstrndx].size;
+        let cut = 1 + ctx.rng.below(3);
+        if sz > cut && b.poke(&format!("shdr[{}].sh_size", b.shstrndx), sz - cut) {
+            ctx.count("shstrtab-without-final-nul");
+        }
+    }
     let data = &b.bytes[..];
     ctx.set_input(data);
     ctx.count("objects");
